@@ -6,16 +6,24 @@ import (
 	"kvassverif/core"
 )
 
+func extend(sp *core.Spec) {
+	sp.Real = append(sp.Real, "cmdworld runs: the command body of cmd/kvass/coordinator.go (Prometheus discovery.Manager, TargetsDiscovery, Explore, ConfigManager, Coordinator, coordinator.Service, static shard manager) and one cmd/kvass/sidecar.go command body per shard")
+	sp.Stub = append(sp.Stub, "cmdworld runs: service discovery mechanism (a registered SD plug-in whose results the simulator decides), Prometheus per shard, scrape targets, network, the listening sockets")
+	sp.SchedLabels = append(sp.SchedLabels, "cmd_release", "cmd_event_kind", "cmd_event_at", "cmd_lose_after")
+}
+
 func init() {
 	note := "; every 7th run is a closed loop of the real commands themselves - the command body of `kvass coordinator` (cmd/kvass/coordinator.go: real Prometheus discovery manager fed by a simulated SD mechanism, target discovery, explorer, configuration manager, coordinator loop, API; static shard list) and one `kvass sidecar` command body per shard - with drawn discovery changes, health flips, configuration reloads through the coordinator's API%s, judged end to end: the C03 end state on the sidecars' own status answers and Prometheus stubs within 80 fault-free cycles, and the coordinator API's active-target list"
 	if sp, err := core.Lookup("C03"); err == nil {
 		sp.Extra = func(tp *core.Tape, e *core.Env) { Run(tp, e, false) }
 		sp.ExtraEvery = 7
 		sp.Rule += sprintf(note, "")
+		extend(sp)
 	}
 	if sp, err := core.Lookup("C17"); err == nil {
 		sp.Extra = func(tp *core.Tape, e *core.Env) { Run(tp, e, false) }
 		sp.ExtraEvery = 37
+		extend(sp)
 		sp.TapeCap = 400000
 		sp.Rule += "; every 37th run is a closed loop of the real commands (the command body of `kvass coordinator` with the real Prometheus discovery manager fed by a simulated SD mechanism, its forwarding loop and callback chain as wired in cmd/kvass/coordinator.go, plus real sidecar commands): after the last discovery change / reload the coordinator API's active-target list must be exactly what discovery and the loaded relabel rules say, and the explorer must have probed every discovered target"
 	}
@@ -23,6 +31,7 @@ func init() {
 		sp.Extra = func(tp *core.Tape, e *core.Env) { Run(tp, e, true) }
 		sp.ExtraEvery = 7
 		sp.Rule += sprintf(note, ", sidecar restarts, coordinator restarts, lost target updates and unreachable shards")
+		extend(sp)
 	}
 }
 
